@@ -531,6 +531,76 @@ theorem subtd_set_is_leaf_assignment (td : TD) (sub : Sub) (target : Option Nat)
       intro hc; exact h ⟨hc.1, by simp [hc.2]⟩
     rw [if_neg h, if_neg h']
 
+/-! #### sub-tensordicts of sub-tensordicts: the write-back chain of `_SubTensorDict._set_at_str` (`Td.subsubSet`, `Td.writeThrough`)
+
+`inner = td._get_sub_tensordict(i1)._get_sub_tensordict(i2)`; `inner[i3] = value` reads the window `td[key][i1][i2]` (selections `R1` on the
+leaf, `R2` on `R1.shape`), writes `window[i3] = value` (write map `w3`) and assigns the windows back level by level: the root ends up with the
+write map `writeThrough R1 (writeThrough R2 w3)`, whether or not a window was a view (the defect of seeded mutant C03-5). -/
+
+/-- **Frame.** A root position keeps its content unless it is the source (through `R1` then `R2`) of a window cell `window[i3] = value` wrote. -/
+theorem subsub_write_frame (R1 R2 : IndexResult) (w3 : List Nat → Option (List Nat)) (p : List Nat)
+    (h : ∀ q ∈ coords R1.shape, R1.src q = p → ∀ r ∈ coords R2.shape, R2.src r = q → w3 r = none) :
+    writeThrough R1 (writeThrough R2 w3) p = none :=
+  writeThrough_frame R1 _ p (fun q hq hqp => writeThrough_frame R2 w3 q (fun r hr hrq => h q hq hqp r hr hrq))
+
+/-- **Hit.** When neither window repeats an element (`R1`, `R2` injective on their coordinates — e.g. no repeated row in an index array),
+the root element `R1.src (R2.src r)` receives exactly what `window[i3] = value` put into cell `r` — through a view or through a copy alike.
+(`R2` is torch's selection on the first window, so `R2.src r` is a cell of it by `src_in_bounds`.) -/
+theorem subsub_write_hit (dims : Shape) (items1 items2 : List Ix) (R1 R2 : IndexResult) (w3 : List Nat → Option (List Nat))
+    (h1 : index dims items1 = .ok R1) (h2 : index R1.shape items2 = .ok R2)
+    (hinj1 : ∀ q1 ∈ coords R1.shape, ∀ q2 ∈ coords R1.shape, R1.src q1 = R1.src q2 → q1 = q2)
+    (hinj2 : ∀ q1 ∈ coords R2.shape, ∀ q2 ∈ coords R2.shape, R2.src q1 = R2.src q2 → q1 = q2)
+    (r : List Nat) (hr : r ∈ coords R2.shape) :
+    writeThrough R1 (writeThrough R2 w3) (R1.src (R2.src r)) = w3 r ∧ R1.src (R2.src r) ∈ coords dims := by
+  have hq : R2.src r ∈ coords R1.shape := index_src_inB R1.shape items2 R2 h2 r hr
+  refine ⟨?_, index_src_inB dims items1 R1 h1 _ hq⟩
+  rw [writeThrough_hit R1 _ (R2.src r) hinj1 hq, writeThrough_hit R2 w3 r hinj2 hr]
+
+/-- **`inner[i3] = value` on a sub-tensordict of a sub-tensordict is the write-back chain over torch's selections.** For Ellipsis-free tuple
+indices with `i1` accepted by torch on the batch shape (result `R1`) and `i2` accepted on `R1.shape` (result `R2`): whenever
+`td._get_sub_tensordict(i1)._get_sub_tensordict(i2)[i3] = value` succeeds, the write map of every root leaf `bs ++ feat` is
+`writeThrough R1' (writeThrough R2' w3)` where `R1'` / `R2'` are torch's selections `R1` / `R2` acting on the batch coordinates only
+(`LeafOk`) and `w3` is torch's write map of `window[i3] = value` on the window `R2.shape ++ feat`. With `subsub_write_frame` /
+`subsub_write_hit` this says which root elements change and to what. -/
+theorem subsub_set_is_write_through (td : TD) (items1 items2 items3 : List Ix) (R1 R2 : IndexResult) (v : Shape)
+    (ws : List (List Nat → Option (List Nat)))
+    (hn1 : noEll items1 = true) (hn2 : noEll items2 = true) (hn3 : noEll items3 = true)
+    (h1 : index td.bs items1 = .ok R1) (h2 : index R1.shape items2 = .ok R2)
+    (h : subsubSet td (.tuple items1) (.tuple items2) (.tuple items3) v = .ok ws) :
+    Forall2 (fun feat w => ∃ R1' R2' w3, index (td.bs ++ feat) items1 = .ok R1' ∧ LeafOk R1 feat R1' ∧
+        index R1'.shape items2 = .ok R2' ∧ LeafOk R2 feat R2' ∧
+        setIndex (R2.shape ++ feat) items3 v = .ok w3 ∧ w = writeThrough R1' (writeThrough R2' w3)) td.leaves ws := by
+  have hany : ∀ items : List Ix, noEll items = true → items.any (· = Ix.ell) = false := by
+    intro items hn
+    simp only [noEll, List.all_eq_true, bne_iff_ne, ne_eq] at hn
+    simpa using hn
+  obtain ⟨-, P1, hw1, hf1⟩ := index_inv h1
+  have hb1 := getitemBatchSize_tuple td.bs items1 _ P1 R1 hn1 hw1 hf1
+  obtain ⟨-, P2, hw2, hf2⟩ := index_inv h2
+  have hb2 := getitemBatchSize_tuple R1.shape items2 _ P2 R2 hn2 hw2 hf2
+  have ho : subInit td (.tuple items1) = .ok { idx := .tuple items1, bs := R1.shape } := by
+    simp [subInit, PyIndex.items, hany items1 hn1, hb1, bind, Except.bind, pure, Except.pure]
+  have hi : subInit { td with bs := R1.shape } (.tuple items2) = .ok { idx := .tuple items2, bs := R2.shape } := by
+    simp [subInit, PyIndex.items, hany items2 hn2, hb2, bind, Except.bind, pure, Except.pure]
+  unfold subsubSet at h
+  simp only [ho, hi, bind, Except.bind, hany items3 hn3, Bool.false_eq_true, if_false] at h
+  cases hc : checkIndexNdim (.tuple items3) R2.shape.length with
+  | error e => simp [hc] at h
+  | ok u =>
+    simp only [hc] at h
+    refine Forall2.imp (mapM_ok_inv _ _ h) ?_
+    intro feat w hfw
+    obtain ⟨R1', hR1', hok1⟩ := leaf_commutes td.bs feat items1 R1 hn1 h1
+    obtain ⟨R2', hR2', hok2⟩ := leaf_commutes R1.shape feat items2 R2 hn2 h2
+    rw [← hok1.1] at hR2'
+    simp only [leafGet, PyIndex.items, hR1', hR2'] at hfw
+    cases hs : setIndex R2'.shape items3 v with
+    | error e => simp [hs] at hfw
+    | ok w3 =>
+      simp only [hs, pure, Except.pure, Except.ok.injEq] at hfw
+      refine ⟨R1', R2', w3, hR1', hok1, hR2', hok2, ?_, hfw.symm⟩
+      rw [← hok2.1]; exact hs
+
 /-! ### aliasing -/
 
 /-- **Shares memory iff basic.** torch's result is a view of the source exactly when every item of the index is basic
@@ -576,6 +646,25 @@ check on gathered elements and the size-0 indexed-dim rule are exactly what is n
 theorem src_in_bounds (dims : Shape) (items : List Ix) (R : IndexResult) (h : index dims items = .ok R)
     (c : List Nat) (hc : c ∈ coords R.shape) : R.src c ∈ coords dims :=
   index_src_inB dims items R h c hc
+
+/-- **Reading through a sub-tensordict of a sub-tensordict is torch applied twice to the batch dims.** For Ellipsis-free tuple indices,
+`i1` accepted by torch on the batch shape (result `R1`) and `i2` accepted on `R1.shape` (result `R2`):
+`td._get_sub_tensordict(i1)._get_sub_tensordict(i2).get(key)` is, for every leaf `bs ++ feat`, a tensor of shape `R2.shape ++ feat` holding at
+`c ++ f` the root element `R1.src (R2.src c) ++ f`, a view of the root exactly when both selections are views. -/
+theorem subsub_get_is_torch_twice (td : TD) (items1 items2 : List Ix) (R1 R2 : IndexResult) (j : Nat) (feat : Shape)
+    (hn1 : noEll items1 = true) (hn2 : noEll items2 = true)
+    (h1 : index td.bs items1 = .ok R1) (h2 : index R1.shape items2 = .ok R2) (hj : td.leaves[j]? = some feat) :
+    ∃ R', subsubGet td { idx := .tuple items1, bs := R1.shape } { idx := .tuple items2, bs := R2.shape } j = .ok R' ∧
+      LeafOk { shape := R2.shape, src := fun c => R1.src (R2.src c), view := R1.view && R2.view } feat R' := by
+  obtain ⟨R1', hR1', hok1⟩ := leaf_commutes td.bs feat items1 R1 hn1 h1
+  obtain ⟨R2', hR2', hok2⟩ := leaf_commutes R1.shape feat items2 R2 hn2 h2
+  rw [← hok1.1] at hR2'
+  refine ⟨{ shape := R2'.shape, src := fun c => R1'.src (R2'.src c), view := R1'.view && R2'.view }, ?_, ?_⟩
+  · simp [subsubGet, hj, leafGet, PyIndex.items, hR1', hR2', bind, Except.bind, pure, Except.pure]
+  · refine ⟨hok2.1, by simp [hok1.2.1, hok2.2.1], ?_⟩
+    intro c f hc hf
+    show R1'.src (R2'.src (c ++ f)) = R1.src (R2.src c) ++ f
+    rw [hok2.2.2 c f hc hf, hok1.2.2 (R2.src c) f (src_rank R1.shape items2 R2 h2 c) hf]
 
 /-! ### dim names
 
@@ -713,5 +802,13 @@ example : ∃ w, setIndex [2, 3] [slAll, .list [0, 0]] [2, 1] = .ok w ∧ w [0, 
     slAll, SliceSpec.indices, SliceSpec.rangeLen, Except.map, hasZeroIndexedDim, advInRange, outShape, kinds, contiguous,
     afterRun, outDims, valueOk, numel]
   refine ⟨?_, ?_, ?_, ?_⟩ <;> decide
+
+/-- sub-tensordict of a sub-tensordict: `td._get_sub_tensordict((slice(1, None),))._get_sub_tensordict(([2, 0],))[0] = scalar` on batch [4, 3]
+(the second window is a COPY): row 0 of the inner window is row 2 of the outer one is row 3 of the root, so the root leaf of shape [4, 3]
+is written at [3, 1] and kept at [1, 1] / [2, 1]; the leaf of shape [4, 3, 2] is written at [3, 1, 1] and kept at [1, 1, 0] -/
+example : (subsubSet { bs := [4, 3], names := none, leaves := [[], [2]], nested := [] }
+      (.tuple [.slice (some 1) none none]) (.tuple [.list [2, 0]]) (.single (.int 0)) []).map
+        (fun ws => ws.map (fun w => [w [3, 1], w [1, 1], w [2, 1], w [3, 1, 1], w [1, 1, 0]]))
+      = .ok [[some [], none, none, none, none], [none, none, none, some [], none]] := by decide
 
 end TdVerif.Props.C03
